@@ -44,6 +44,14 @@ def render(c, cast):
         body = "fn f(s: %s, t0: %s) {\n    let t: %s = t0;\n    t += %s;\n}\n" % (S, T, T, v)
     elif pos == "optional":
         body = "fn f(s: %s) {\n    let t: %s? = %s;\n}\n" % (S, T, v)
+    elif pos == "optarg":
+        body = "fn g(t: %s?) { }\nfn f(s: %s) {\n    g(%s);\n}\n" % (T, S, v)
+    elif pos == "optret":
+        body = "fn f(s: %s) -> %s? {\n    return %s;\n}\n" % (S, T, v)
+    elif pos == "optfield":
+        body = "type P struct { .X: %s? };\nfn f(s: %s) {\n    let p: P = { .X = %s };\n}\n" % (T, S, v)
+    elif pos == "optassign":
+        body = "fn f(s: %s, t0: %s) {\n    let t: %s? = t0;\n    t = %s;\n}\n" % (S, T, T, v)
     elif pos == "global":
         body = "fn src() -> %s {\n    let z: %s = %s;\n    return z;\n}\nfn f() {\n    let s: %s = src();\n    let t: %s = %s;\n}\n" % (
             S, S, zero(S), S, T, v)
